@@ -92,18 +92,26 @@ def run(ctx):
             res.violations.append(vlib.Violation("recorded meter output is not (sorted progress frames <= n, then exactly one final frame with n) per phase",
                                                  {"script": req, "phases": phases}, expected="accepted by Meter.accepts",
                                                  observed=[list(map(str, f)) for f in frames[:60]]))
-    # counts that do not fit 31 / 32 / 53 bits (reached with Add, crossed with Inc while frames are drawn).  The meter model
-    # counts in unary, so these are judged here by the same rule: per phase, progress frames sorted and <= n, then one final
-    # frame carrying exactly n
+    # counts that do not fit 31 / 32 / 53 bits (reached with Add, crossed with Inc while frames are drawn): judged by the model's
+    # acceptor on binary numbers (acceptsN, proved equal to the acceptor of Meter.v) and, independently, by the same rule
+    # written out here: per phase, progress frames sorted and <= n, then one final frame carrying exactly n
     big_reqs, big_phases = [], []
     for big in (2**31 - 10, 2**32 - 10, 2**32, 2**33 + 7, 2**53 + 1, 2**62):
         for ops, phases in ((["S1", "A%d" % big, "Y30", "W300000", "I5", "D"], [(1, big + 35)]),
                             (["S2", "I3", "A%d" % big, "W200000", "D", "S3", "A7", "D"], [(2, big + 3), (3, 7)])):
             big_reqs.append("meter %d %s" % (50000, ",".join(ops)))
             big_phases.append(phases)
-    for req, phases, a in zip(big_reqs, big_phases, vlib.batch(ctx["bins"]["api"], big_reqs, timeout=300)):
-        frames = parse_frames(bytes.fromhex(a) if a != "-" else b"")
+    big_api = vlib.batch(ctx["bins"]["api"], big_reqs, timeout=300)
+    big_frames = [parse_frames(bytes.fromhex(a) if a != "-" else b"") for a in big_api]
+    big_mod = vlib.batch(ctx["modelrun"], ["meter " + " ".join(["%d:%d" % p for p in phases] + ["|"] + ["%s:%d:%d" % fr if fr[0] != "?" else "X:0:0" for fr in frames])
+                                           for phases, frames in zip(big_phases, big_frames)])
+    for req, phases, frames, m in zip(big_reqs, big_phases, big_frames, big_mod):
         res.case(req, True)
+        if m != "true":
+            res.violations.append(vlib.Violation("recorded meter output is not (sorted progress frames <= n, then exactly one final frame with n) per phase",
+                                                 {"script": req, "phases": phases}, expected="accepted by Meter.accepts (binary acceptor)",
+                                                 observed=[list(map(str, f)) for f in frames[:40]]))
+            continue
         ok, i = True, 0
         for f, n in phases:
             last = 0
